@@ -56,6 +56,7 @@ inductive POp
   | push (ring ud : Nat) (k : Kind) (link : Bool)
   | submit (ring : Nat) (badts : Bool)
   | cqnew (ring : Nat) | cqsync (ring : Nat) | next (ring : Nat) | readable (ring : Nat) | dropRing (ring : Nat)
+  | await (ring : Nat) | awaited (ring : Nat) | sqinfo (ring : Nat)
   | advance (ns : Nat) | crash | final
   | fwrite (fd off : Nat) (d : List Nat) | fread (fd off len : Nat) | fsync (fd : Nat) | fclose (fd : Nat) | fopen (fd : Nat)
 deriving Repr, Inhabited
@@ -82,6 +83,9 @@ def parseOp (t : List String) : Option POp :=
   | [a, "cqsync"] => some (.cqsync (actorIdx a))
   | [a, "next"] => some (.next (actorIdx a))
   | [a, "readable"] => some (.readable (actorIdx a))
+  | [a, "await"] => some (.await (actorIdx a))
+  | [a, "awaited"] => some (.awaited (actorIdx a))
+  | [a, "sqinfo"] => some (.sqinfo (actorIdx a))
   | [a, "dropring"] => some (.dropRing (actorIdx a))
   | [_, "advance", ns] => do pure (.advance (← ns.toNat?))
   | [_, "crash"] => some .crash
@@ -134,6 +138,7 @@ structure OEntry where
   seq : Nat := 0          -- push order
   subIdx : Nat := 0       -- index of the submit op
   doneIdx : Nat := 0      -- index of the op that drained it
+  doneAt : Nat := 0       -- ring time at which it was drained
 deriving Repr, Inhabited
 
 structure ORing where
@@ -150,6 +155,7 @@ structure OState where
   fileOpen : Array Bool := #[]
   fileGen : Array Nat := #[]
   opIdx : Nat := 0
+  waiters : List (Nat × Nat) := []     -- (ring, ring time of the `await`)
 
 def fmtCqe (ud : Nat) (res : Int) (buf : List Nat) : String := s!"cqe {ud} {res} buf={hex buf}"
 
@@ -162,6 +168,7 @@ def showROut : ROut → String
   | .none_ => "none"
   | .cqe ud res buf => fmtCqe ud res buf
   | .ready b => if b then "ready" else "pending"
+  | .sq len full cap => s!"sq len={len} full={if full then 1 else 0} cap={cap}"
 
 def firstBatch : List (List Sched) → List Sched
   | [] => []
@@ -189,6 +196,10 @@ def runCase (c : Case) : Verdict := Id.run do
   let mut kOpen : Array Bool := (List.replicate nfiles true).toArray
   let fdOf := fun (cur : Array Nat) (k : Nat) => if k < nfiles then cur.getD k 0 else 999999
   let mut dropped : List Nat := []
+  let simMode := c.cfgGet "mode" "standalone" == "sim"
+  -- sim mode: a crash kills the software, so every handle (ring, completion queue, AsyncFd) is lost
+  let mut lost : List Nat := []
+  if simMode then v := { v with cov := addCov v.cov "simhost" }
   let mut o : OState := { fileOpen := (List.replicate nfiles true).toArray, fileGen := (List.replicate nfiles 0).toArray }
   -- K-side table: pushed entries per ring, for buffer formatting
   let mut kEntries : Array (Nat × Nat × Kind × Bool) := #[]   -- ring, ud, kind, done
@@ -245,13 +256,13 @@ def runCase (c : Case) : Verdict := Id.run do
         let (h', _) := h.step (.ring ring .cqnew)
         h := h'; kWant := "unit"
     | .cqsync ring =>
-      if ring ≥ h.nextRing then kWant := "invalid"
+      if ring ≥ h.nextRing || lost.contains ring then kWant := "invalid"
       else
         let (h', out) := h.step (.ring ring .cqsync)
         h := h'
         kWant := match out with | .ring r => showROut r | _ => "?"
     | .next ring =>
-      if ring ≥ h.nextRing then kWant := "invalid"
+      if ring ≥ h.nextRing || lost.contains ring then kWant := "invalid"
       else
         -- shuffle oracle from the observation
         let obsUd := (obsToks.getD 1 "").toNat?.getD 0
@@ -301,15 +312,28 @@ def runCase (c : Case) : Verdict := Id.run do
         | _ => kWant := "?"
         if obsHead == "cqe" && !permOk && v.kOk then
           v := { v with kOk := false, line := obsLine, detail := s!"K shuffle: CQE {obsUd} is not in the oldest matured batch" }
+    | .sqinfo ring =>
+      if dropped.contains ring || ring ≥ h.nextRing then kWant := "invalid"
+      else
+        let (h', out) := h.step (.ring ring .sqinfo)
+        h := h'
+        kWant := match out with | .ring r => showROut r | _ => "?"
+    | .await ring =>
+      if !simMode || ring ≥ h.nextRing || lost.contains ring then kWant := "invalid"
+      else if (lookupRing ring h.rings).isNone then kWant := "err notfound"
+      else kWant := "unit"
+    | .awaited ring =>
+      if ring ≥ h.nextRing || lost.contains ring then kWant := "invalid"
+      else kWant := obsMain      -- K-abstract: wake-up timing is judged by the oracle below
     | .readable ring =>
-      if ring ≥ h.nextRing then kWant := "invalid"
+      if ring ≥ h.nextRing || lost.contains ring then kWant := "invalid"
       else
         let (h', out) := h.step (.ring ring .readable)
         h := h'
         kWant := match out with | .ring r => showROut r | .noRing => "err notfound" | _ => "?"
         v := { v with cov := addCov v.cov "asyncfd" }
     | .dropRing ring =>
-      if ring ≥ h.nextRing then kWant := "invalid"
+      if ring ≥ h.nextRing || lost.contains ring then kWant := "invalid"
       else
         let (h', _) := h.step (.dropRing ring)
         h := h'; dropped := ring :: dropped; kWant := "unit"
@@ -319,6 +343,9 @@ def runCase (c : Case) : Verdict := Id.run do
         v := { v with cov := addCov v.cov "crash-inflight" }
       h := (h.step .crash).1; kWant := "unit"; crashedOnce := true
       kOpen := kOpen.map (fun _ => false)
+      if simMode then
+        lost := List.range h.nextRing
+        dropped := List.range h.nextRing
       v := { v with cov := addCov v.cov "crash" }
     | .fwrite fd off d =>
       let (h', out) := h.step (.fwrite (fdOf curFd fd) off d)
@@ -365,7 +392,7 @@ def runCase (c : Case) : Verdict := Id.run do
       if n != 0 then o := { o with rings := o.rings.push { depth := nextPow2 n } }
     | .push ring ud k link =>
       if let some r := o.rings[ring]? then
-        if !r.dropped then
+        if !r.dropped && !lost.contains ring then
           let expectFull := r.dead || r.sqCount ≥ r.depth
           if expectFull && obsHead != "full" then oErr := some s!"push on a full/dead SQ (queued {r.sqCount}, depth {r.depth}) returned {obsHead}"
           if !expectFull && obsHead != "pushed" then oErr := some s!"push with free space (queued {r.sqCount}, depth {r.depth}) returned {obsHead}"
@@ -378,7 +405,7 @@ def runCase (c : Case) : Verdict := Id.run do
                                                         | _ => 0 } }
     | .submit ring badts =>
       if let some r := o.rings[ring]? then
-        if !r.dropped && !badts then
+        if !r.dropped && !badts && !lost.contains ring then
           if r.dead then
             if obsMain != "err notfound" then oErr := some s!"submit on a crashed host's ring returned [{obsMain}]"
           else
@@ -422,7 +449,7 @@ def runCase (c : Case) : Verdict := Id.run do
           | [] => oErr := some s!"completion for user_data {ud} without an outstanding submission (duplicate or phantom)"
           | i :: _ =>
             let e := o.entries[i]!
-            o := { o with entries := o.entries.set! i { e with done := true, res := res, doneIdx := o.opIdx } }
+            o := { o with entries := o.entries.set! i { e with done := true, res := res, doneIdx := o.opIdx, doneAt := o.now } }
             -- not early (the earliest candidate deadline must have passed)
             let early := cands.all fun j => let x := o.entries[j]!; o.now < x.at_ + x.lat
             if early && res != ECANCELED then
@@ -447,6 +474,11 @@ def runCase (c : Case) : Verdict := Id.run do
                   if res != EBADF then oErr := some s!"operation on a closed file completed with {res}, not -EBADF"
                 else if res != twin || buf != twinbuf then
                   oErr := some s!"ring result ({res}, {buf}) differs from the synchronous API's ({twin}, {twinbuf})"
+    | .sqinfo ring =>
+      if let some r := o.rings[ring]? then
+        if obsHead == "sq" && !r.dropped then
+          let exp := if r.dead then "sq len=0 full=1 cap=0" else s!"sq len={r.sqCount} full={if r.sqCount ≥ r.depth then 1 else 0} cap={r.depth}"
+          if obsMain != exp then oErr := some s!"submission queue reports [{obsMain}], expected [{exp}]"
     | .cqsync ring =>
       if let some r := o.rings[ring]? then
         if obsHead == "synced" then
@@ -472,9 +504,28 @@ def runCase (c : Case) : Verdict := Id.run do
                     fileOpen := o.fileOpen.map (fun _ => false) }
     | .dropRing ring =>
       if let some r := o.rings[ring]? then o := { o with rings := o.rings.set! ring { r with dropped := true } }
+    | .await ring =>
+      if obsMain == "unit" then o := { o with waiters := (ring, o.now) :: o.waiters.filter (·.1 != ring) }
+    | .awaited ring =>
+      match o.waiters.find? (·.1 == ring) with
+      | none => pure ()
+      | some (_, t0) =>
+        let tick := 1000000
+        let es := o.entries.toList.filter fun e => e.ring == ring && e.submitted
+        if obsMain == "woken" then
+          -- not early: some completion must have been due while the waiter existed
+          let ok := es.any fun e => e.at_ + e.lat ≤ o.now && (!e.done || e.doneAt ≥ t0)
+          if !ok then oErr := some s!"AsyncFd::readable woke at or before {o.now}ns although no completion was due since the wait began at {t0}ns"
+        if obsMain == "waiting" then
+          let due := es.any fun e => !e.done && e.at_ + e.lat + tick ≤ o.now && t0 + tick ≤ o.now
+          if due then oErr := some s!"AsyncFd::readable still pending at {o.now}ns although a completion has been due for more than a tick"
+        if obsMain == "wokenerr" then
+          if let some r := o.rings[ring]? then
+            if !r.dropped then oErr := some "AsyncFd::readable failed on a live ring"
     | .readable ring =>
       if let some r := o.rings[ring]? then
-        if (r.dead || r.dropped) && obsMain != "err notfound" then oErr := some s!"readable on a dead ring returned [{obsMain}]"
+        if lost.contains ring then pure ()
+        else if (r.dead || r.dropped) && obsMain != "err notfound" then oErr := some s!"readable on a dead ring returned [{obsMain}]"
         -- readiness must not be reported before any outstanding deadline
         if obsMain == "ready" then
           let any := (List.range o.entries.size).any fun i =>
